@@ -1,8 +1,10 @@
 """Reference interpreter of the semantics the properties state (DESIGN.md Appendix A).
 Independent of MSM: works on the spec data only and produces the same token trace format as the SUT.
 
-Only rules that a property or the documentation states are implemented; aspects on which they are silent are
-handled by the oracles through projections, not here."""
+The selection / execution / hierarchy / history / pseudo-state rules are the ones the properties spell out.  Where the
+documentation leaves an order open and the back-ends differ (queue mechanics, completion re-tries) the model has a
+dialect switch ('back' for back/back11, 'mp11' for backmp11) that follows the documented algorithm of each back-end;
+oracles that must not depend on such choices compare projections or use invariants instead of the full trace."""
 from . import spec as S
 
 TAKEN, REJECTED, DEFERRED = 'T', 'R', 'D'
@@ -15,7 +17,7 @@ class ModelThrow(Exception):
 class MState:
     """run-time state of one machine object"""
 
-    def __init__(self, m, parent=None, name_in_parent=None):
+    def __init__(self, m, parent=None):
         self.m = m
         self.parent = parent
         self.active = [reg[0] for reg in m['regions']]
@@ -23,25 +25,30 @@ class MState:
         self.subs = {}
         for s, st in m['states'].items():
             if st['kind'] == 'sub':
-                self.subs[s] = MState(st['machine'], self, s)
-        self.queue = []          # message queue (pending occurrences), oldest first
-        self.deferred = []       # deferred occurrences
+                self.subs[s] = MState(st['machine'], self)
+        self.queue = []          # back: message queue [(ev, source flags)]
+        self.deferred = []       # back: deferred queue [[ev, seq]]
+        self.cur_seq = 0         # back: char sequence counter
+        self.pool = []           # mp11: event pool [occurrence dict]
+        self.seq = 0             # mp11: uint16 sequence counter
         self.processing = False
         self.running = False
-        self.frozen = {}
+        self.has_completion = any(r['ev'] is None for r in m['table'])
+        self.has_deferral = bool(m.get('activate_deferred')) or any(
+            (st.get('deferred') or (st['kind'] == 'sub' and st['machine'].get('as_state', {}).get('deferred')))
+            for st in m['states'].values())
 
     def clone(self, parent=None):
         c = MState.__new__(MState)
-        c.m = self.m
+        c.__dict__.update(self.__dict__)
         c.parent = parent
         c.active = list(self.active)
         c.hist = list(self.hist)
         c.subs = {k: v.clone(c) for k, v in self.subs.items()}
         c.queue = list(self.queue)
-        c.deferred = list(self.deferred)
+        c.deferred = [list(x) for x in self.deferred]
+        c.pool = [dict(x) for x in self.pool]
         c.processing = False
-        c.running = self.running
-        c.frozen = dict(self.frozen)
         return c
 
 
@@ -60,14 +67,11 @@ class Model:
         self.freeze_by_state = {}
         for a, src in self.cg.items():
             self.freeze_by_state.setdefault(src, []).append(a)
-        self.evidx = {e['name']: i for i, e in enumerate(spec['events'])}
         self.kleene = {e['name'] for e in spec['events'] if e.get('kleene')}
-        self.counters = {}
+        self.policy = spec['root'].get('policy', 'default')
+        self.inflight = None       # (machine state, region, source, target, phase) of the transition being executed
 
     # ------------------------------------------------------------------ utilities
-    def count(self, k, n=1):
-        self.counters[k] = self.counters.get(k, 0) + n
-
     def tok(self, t):
         self.trace.append(t)
 
@@ -93,9 +97,9 @@ class Model:
                 ev = (self.spec['events'][evi]['name'], payload)
                 target = self.root if how in ('r', 'Q') else ms
                 if how in ('f', 'r'):
-                    self.process_event(target, ev)
+                    self.api_process(target, ev)
                 else:
-                    target.queue.append(ev)
+                    self.api_enqueue(target, ev)
                 self.tok('!ret')
             elif sc[0] == 'b':
                 self.tok('pb{%s}' % self.probe_inside())
@@ -123,7 +127,6 @@ class Model:
         raise ValueError(g)
 
     def matches(self, trigger, ev):
-        """does a row trigger match the event occurrence?"""
         if ev == 'none':
             return trigger is None
         if trigger is None:
@@ -133,14 +136,14 @@ class Model:
         return trigger in S.event_bases(self.spec, ev[0])
 
     # ------------------------------------------------------------------ entry / exit
-    def do_entry_state(self, ms, sname, ev, how=None):
-        """enter state sname of machine ms. how: None | ('direct', [states]) | ('entry_pt', pt)"""
+    def do_entry_state(self, ms, r_, sname, ev, how=None):
         st = ms.m['states'][sname]
         if st['kind'] == 'sub':
-            sub = ms.subs[sname]
-            self.enter_machine(sub, ev, how)
+            self.enter_machine(ms.subs[sname], ev, how)
         else:
             self.state_entry(ms, sname, ev)
+            if self.dialect == 'mp11':
+                self.mp11_entry_completed(ms, r_, sname)
 
     def state_entry(self, ms, sname, ev):
         for a in self.freeze_by_state.get(sname, ()):
@@ -148,22 +151,13 @@ class Model:
         self.tok('en:%s/%s' % (sname, self.evdesc(ev)))
         self.callback(ms)
 
+    def mp11_entry_completed(self, ms, r_, sname):
+        st = ms.m['states'][sname]
+        if st['kind'] != 'sub' and any(r['ev'] is None and r['src'] == sname for r in ms.m['table']):
+            ms.pool.insert(0, dict(k='c', region=r_, state=sname, deleted=False))
+
     def enter_machine(self, sub, ev, how):
         m = sub.m
-        self.tok('en:%s/%s' % (m['name'], self.evdesc(ev)))
-        self.callback(sub.parent if sub.parent is not None else sub)
-        # history
-        h = m.get('history', 'none')
-        if h == 'none':
-            sub.active = [reg[0] for reg in m['regions']]
-        elif h == 'always':
-            sub.active = list(sub.hist)
-        else:
-            evname = ev[0] if isinstance(ev, tuple) else None
-            if evname in h['shallow']:
-                sub.active = list(sub.hist)
-            else:
-                sub.active = [reg[0] for reg in m['regions']]
         named = {}
         if how is not None:
             if how[0] == 'direct':
@@ -171,22 +165,52 @@ class Model:
                     named[m['states'][t]['region']] = t
             elif how[0] == 'entry_pt':
                 named[m['states'][how[1]]['region']] = how[1]
-        for r_, t in named.items():
-            sub.active[r_] = t
+        all_named = len(named) == len(m['regions'])
+        h = m.get('history', 'none')
+        restore = False
+        if h == 'always':
+            restore = True
+        elif h != 'none':
+            evname = ev[0] if isinstance(ev, tuple) else None
+            restore = evname in h['shallow']
         sub.running = True
-        for r_ in range(len(m['regions'])):
-            self.do_entry_state(sub, sub.active[r_], ev)
-        if how is not None and how[0] == 'entry_pt':
-            # the pseudo state immediately continues with the inner transition on the same event
-            self.entry_pt_continue(sub, how[1], ev)
-
-    def entry_pt_continue(self, sub, pt, ev):
-        r_ = sub.m['states'][pt]['region']
-        for row in reversed(sub.m['table']):
-            if row['src'] == pt and self.matches(row['ev'], ev):
-                if self.eval_guard(sub, row.get('guard'), ev):
-                    self.exec_row(sub, r_, row, ev)
-                    break
+        sub.processing = True
+        if self.dialect == 'back':
+            sub.active = list(sub.hist) if restore else [reg[0] for reg in m['regions']]
+            self.tok('en:%s/%s' % (m['name'], self.evdesc(ev)))
+            self.callback(sub.parent if sub.parent is not None else sub)
+            for r_, t in named.items():
+                sub.active[r_] = t
+            for r_ in range(len(m['regions'])):
+                self.do_entry_state(sub, r_, sub.active[r_], ev)
+            if sub.has_completion:
+                self.back_process_event(sub, 'none', {'D'})
+            if how is not None and how[0] == 'entry_pt':
+                self.back_process_event(sub, ev, {'D'})
+            sub.processing = False
+            self.back_handle_deferred(sub, True)
+            self.back_message_queue(sub)
+        else:
+            self.tok('en:%s/%s' % (m['name'], self.evdesc(ev)))
+            self.callback(sub.parent if sub.parent is not None else sub)
+            if not all_named:
+                if restore:
+                    sub.active = list(sub.hist)
+                else:
+                    sub.active = [reg[0] for reg in m['regions']]
+                    sub.pool = []
+            for r_, t in named.items():
+                sub.active[r_] = t
+            if all_named:
+                order = [m['states'][t]['region'] for t in how[1]] if how[0] == 'direct' else list(named)
+            else:
+                order = range(len(m['regions']))
+            for r_ in order:
+                self.do_entry_state(sub, r_, sub.active[r_], ev)
+            sub.processing = False
+            self.mp11_process_pool(sub)
+            if how is not None and how[0] == 'entry_pt':
+                self.mp11_process_event(sub, ev, 'direct')
 
     def do_exit_state(self, ms, sname, ev):
         st = ms.m['states'][sname]
@@ -198,6 +222,11 @@ class Model:
             self.callback(ms)
             sub.hist = list(sub.active)
             sub.running = False
+            if self.dialect == 'back':
+                h = sub.m.get('history', 'none')
+                keep = h == 'always' or (h != 'none' and isinstance(ev, tuple) and ev[0] in h['shallow'])
+                if not keep:
+                    sub.deferred = []
         else:
             self.tok('ex:%s/%s' % (sname, self.evdesc(ev)))
             self.callback(ms)
@@ -208,7 +237,7 @@ class Model:
         tgt = row.get('tgt')
         acts = row.get('actions') or []
         if acts == 'defer':
-            self.defer(ms, ev)
+            self.defer_action(ms, ev)
             return DEFERRED
         if tgt is None:
             for a in acts:
@@ -217,32 +246,66 @@ class Model:
             return TAKEN
         src = row['src']
         srcname = src if isinstance(src, str) else src['exit_pt'][0]
-        self.do_exit_state(ms, srcname, ev)
-        for a in acts:
-            self.tok('a%d/%s' % (a, self.evdesc(ev)))
-            self.callback(ms)
         if isinstance(tgt, str):
             tname, how = tgt, None
         elif 'direct' in tgt:
             tname, how = tgt['direct'][0], ('direct', tgt['direct'][1])
         else:
             tname, how = tgt['entry_pt'][0], ('entry_pt', tgt['entry_pt'][1])
-        self.do_entry_state(ms, tname, ev, how)
-        ms.active[r_] = tname
+        prev = self.inflight
+        self.inflight = [ms, r_, srcname, tname, 'guard_done']
+        try:
+            self.do_exit_state(ms, srcname, ev)
+            self.inflight[4] = 'exit_done'
+            for a in acts:
+                self.tok('a%d/%s' % (a, self.evdesc(ev)))
+                self.callback(ms)
+            self.inflight[4] = 'action_done'
+            self.do_entry_state_noc(ms, r_, tname, ev, how)
+            self.inflight[4] = 'entry_done'
+            ms.active[r_] = tname
+        except ModelThrow:
+            # the active state is what the switch policy prescribes for the phase reached
+            ms.active[r_] = self.policy_state(srcname, tname, self.inflight[4])
+            self.inflight = prev
+            raise
+        self.inflight = prev
+        if self.dialect == 'mp11':
+            self.mp11_entry_completed(ms, r_, tname)
         tst = ms.m['states'][tname]
         if tst['kind'] == 'exit_pt':
-            # hand the converted event to the enclosing machine
             self.forward_exit(ms, tname, ev)
         return TAKEN
+
+    def do_entry_state_noc(self, ms, r_, sname, ev, how):
+        """entry of a transition target: completion bookkeeping (mp11) is done by the caller after the switch"""
+        st = ms.m['states'][sname]
+        if st['kind'] == 'sub':
+            self.enter_machine(ms.subs[sname], ev, how)
+        else:
+            self.state_entry(ms, sname, ev)
+
+    def policy_state(self, src, tgt, phase):
+        """state reported for the transitioning region once `phase` has completed"""
+        pol = self.policy
+        order = ['guard_done', 'exit_done', 'action_done', 'entry_done']
+        switch_at = {'default': 'entry_done', 'after_entry': 'entry_done', 'after_action': 'action_done',
+                     'after_exit': 'exit_done', 'before': 'guard_done'}[pol]
+        return tgt if order.index(phase) >= order.index(switch_at) else src
 
     def forward_exit(self, ms, pt, ev):
         fwd = ms.m['states'][pt]['event']
         nev = (fwd, ev[1] if isinstance(ev, tuple) else 0)
-        target = ms.parent if self.dialect == 'back' else self.root
-        self.process_event(target, nev)
+        if self.dialect == 'back':
+            self.back_process_event(ms.parent, nev, {'D'})
+        else:
+            self.mp11_process_event(self.root if False else ms.parent, nev, 'direct')
 
-    def defer(self, ms, ev):
-        ms.deferred.append(ev)
+    def defer_action(self, ms, ev):
+        if self.dialect == 'back':
+            ms.deferred.append([ev, (ms.cur_seq + 1) & 0xFF])
+        else:
+            ms.pool.append(dict(k='e', ev=ev, seq=ms.seq, deleted=False))
 
     # ------------------------------------------------------------------ dispatch
     def candidates(self, ms, sname, ev):
@@ -270,22 +333,16 @@ class Model:
 
     def blocked(self, ms, ev):
         m = ms.m
-        term = False
-        intr = False
-        end = False
-        for r_, s in enumerate(ms.active):
+        term = intr = end = False
+        for s in ms.active:
             st = m['states'][s]
             if st['kind'] == 'terminate':
                 term = True
             if st['kind'] == 'interrupt':
                 intr = True
-                if isinstance(ev, tuple) and any(b in st['end_events'] for b in S.event_bases(self.spec, ev[0])):
+                if isinstance(ev, tuple) and ev[0] in st['end_events']:
                     end = True
-        if term:
-            return True
-        if intr and not end:
-            return True
-        return False
+        return term or (intr and not end)
 
     def state_defers(self, ms, sname, ev):
         if not isinstance(ev, tuple):
@@ -294,10 +351,9 @@ class Model:
         d = st.get('deferred') or []
         if st['kind'] == 'sub':
             d = st['machine'].get('as_state', {}).get('deferred') or []
-        return any(b in d for b in S.event_bases(self.spec, ev[0]))
+        return ev[0] in d
 
-    def step(self, ms, ev, direct):
-        """one run-to-completion step of machine ms for event occurrence ev. Returns set of result marks."""
+    def step(self, ms, ev, report_nt):
         m = ms.m
         result = set()
         for r_ in range(len(m['regions'])):
@@ -305,11 +361,15 @@ class Model:
             st = m['states'][sname]
             rr = set()
             if st['kind'] == 'sub':
-                rr = self.step_sub(ms.subs[sname], ev)
+                sub = ms.subs[sname]
+                if self.dialect == 'back':
+                    rr = set(self.back_process_event(sub, ev, set()))
+                else:
+                    rr = set(self.mp11_process_event(sub, ev, 'sub'))
             if TAKEN not in rr and DEFERRED not in rr:
                 cands = self.candidates(ms, sname, ev)
-                if not cands and self.state_defers(ms, sname, ev):
-                    self.defer(ms, ev)
+                if not cands and self.dialect == 'back' and self.state_defers(ms, sname, ev):
+                    ms.deferred.append([ev, (ms.cur_seq + 1) & 0xFF])
                     rr.add(DEFERRED)
                 for row in cands:
                     if self.eval_guard(ms, row.get('guard'), ev):
@@ -318,7 +378,7 @@ class Model:
                     else:
                         rr.add(REJECTED)
             result |= rr
-        if TAKEN not in result and DEFERRED not in result:
+        if TAKEN not in result and (DEFERRED not in result or self.dialect == 'back'):
             for row in reversed(m.get('internal', [])):
                 if self.matches(row['ev'], ev):
                     if self.eval_guard(ms, row.get('guard'), ev):
@@ -326,67 +386,181 @@ class Model:
                         break
                     else:
                         result.add(REJECTED)
+        if not result and report_nt and ev != 'none':
+            for r_ in range(len(m['regions'])):
+                self.tok('nt:%s:%s/%s' % (m['name'], ms.active[r_], self.evdesc(ev)))
         return result
 
-    def step_sub(self, sub, ev):
-        """event forwarded into an active submachine: like process_event_internal on a contained machine"""
-        return self.process_event(sub, ev, forwarded=True)
-
-    def process_event(self, ms, ev, forwarded=False):
-        """process_event on machine object ms. Returns result set (for the code class)."""
-        if not forwarded and ms.processing:
-            ms.queue.append(ev)
-            return {'Q'}
-        if self.blocked(ms, ev):
+    def guarded_step(self, ms, ev, report_nt):
+        try:
+            return self.step(ms, ev, report_nt)
+        except ModelThrow:
+            self.tok('xc:%s/%s' % (ms.m['name'], self.evdesc(ev)))
+            self.callback(ms)
             return set()
-        was = ms.processing
+
+    # ------------------------------------------------------------------ back / back11 queue mechanics
+    def back_process_event(self, ms, ev, source):
+        if self.blocked(ms, ev):
+            return {TAKEN}
+        if ms.processing:
+            ms.queue.append((ev, {'D', 'Q'}))
+            return {TAKEN}
         ms.processing = True
         try:
-            try:
-                result = self.step(ms, ev, not forwarded)
-            except ModelThrow:
-                self.tok('xc:%s/%s' % (ms.m['name'], self.evdesc(ev)))
-                self.callback(ms)
-                result = set()
-                thrown = True
-            else:
-                thrown = False
-            if not result and not forwarded and ms.parent is None and not thrown and ev != 'none':
-                for r_ in range(len(ms.m['regions'])):
-                    self.tok('nt:%s:%s/%s' % (ms.m['name'], ms.active[r_], self.evdesc(ev)))
-            if TAKEN in result:
-                self.completion(ms)
+            handled = self.guarded_step(ms, ev, (ms.parent is None) or ('D' in source))
         finally:
-            ms.processing = was
-        if not forwarded and not ms.processing:
-            self.drain(ms)
+            ms.processing = False
+        if ms.has_completion and TAKEN in handled:
+            self.back_process_event(ms, 'none', set(source) | {'D'})
+        if 'F' not in source:
+            self.back_handle_deferred(ms, TAKEN in handled)
+            if 'Q' not in source:
+                self.back_message_queue(ms)
+        return handled
+
+    def back_completion_after_entry(self, ms):
+        if ms.has_completion:
+            self.back_process_event(ms, 'none', {'D'})
+
+    def back_message_queue(self, ms):
+        while ms.queue:
+            ev, src = ms.queue.pop(0)
+            self.back_process_event(ms, ev, src)
+
+    def back_handle_deferred(self, ms, new_seq):
+        if not ms.has_deferral:
+            return
+        if new_seq:
+            ms.cur_seq = (ms.cur_seq + 1) & 0xFF
+        not_only = False
+        while ms.deferred:
+            ev, seq = ms.deferred[0]
+            if ms.cur_seq != seq:
+                break
+            ms.deferred.pop(0)
+            res = self.back_process_event(ms, ev, {'D', 'F'})
+            if res and res != {DEFERRED}:
+                not_only = True
+            if not_only:
+                break
+        if not_only:
+            ms.deferred.sort(key=lambda d: -self.s8(d[1]))
+            for d in ms.deferred:
+                d[1] = (ms.cur_seq + 1) & 0xFF
+            self.back_handle_deferred(ms, True)
+
+    @staticmethod
+    def s8(x):
+        return x - 256 if x >= 128 else x
+
+    # ------------------------------------------------------------------ backmp11 pool mechanics
+    def mp11_is_deferred(self, ms, ev):
+        if not isinstance(ev, tuple):
+            return False
+        for s in ms.active:
+            st = ms.m['states'][s]
+            if st['kind'] == 'sub':
+                d = st['machine'].get('as_state', {}).get('deferred') or []
+                if ev[0] in d:
+                    return True
+                if self.mp11_is_deferred(ms.subs[s], ev):
+                    return True
+            else:
+                if ev[0] in (st.get('deferred') or []):
+                    cd = dict(st.get('cond_defer') or [])
+                    if ev[0] in cd:
+                        if self.eval_guard(ms, ['g', cd[ev[0]]], ev):
+                            return True
+                    else:
+                        return True
+        return False
+
+    def mp11_process_event(self, ms, ev, info):
+        if self.blocked(ms, ev):
+            return {TAKEN}
+        if info != 'pool':
+            if ms.processing or (info != 'sub' and self.mp11_is_deferred(ms, ev)):
+                ms.pool.append(dict(k='e', ev=ev, seq=(ms.seq - 1) & 0xFFFF, deleted=False))
+                return {DEFERRED}
+            ms.seq = (ms.seq + 1) & 0xFFFF
+        ms.processing = True
+        try:
+            result = self.guarded_step(ms, ev, info != 'sub')
+        finally:
+            ms.processing = False
+        if info != 'pool':
+            self.mp11_process_pool(ms)
         return result
 
-    def drain(self, ms):
-        while ms.queue:
-            ev = ms.queue.pop(0)
-            self.process_event(ms, ev)
+    def mp11_process_pool(self, ms, max_events=None):
+        if not ms.pool or ms.processing:
+            return 0
+        i = 0
+        processed = 0
+        while True:
+            occ = ms.pool[i]
+            if occ['deleted']:
+                ms.pool.pop(i)
+            else:
+                is_completion = occ['k'] == 'c'
+                if max_events is not None and processed == max_events and not is_completion:
+                    break       # completion work belongs to the occurrence that caused it (C10) and is not counted
+                res = self.mp11_try_process(ms, occ)
+                if res is None:
+                    i += 1
+                else:
+                    if res != {DEFERRED} and not is_completion:
+                        processed += 1
+                    i = 0
+                    if DEFERRED not in res:
+                        ms.seq = (ms.seq + 1) & 0xFFFF
+            if i >= len(ms.pool):
+                break
+        return processed
 
-    # ------------------------------------------------------------------ completion transitions
-    def completion(self, ms):
-        """try completion rows of machine ms for the active state of every region (region order), chains included."""
-        m = ms.m
-        if not any(r['ev'] is None for r in m['table']):
-            return
-        progress = True
-        while progress:
-            progress = False
-            for r_ in range(len(m['regions'])):
-                sname = ms.active[r_]
-                cands = self.candidates(ms, sname, 'none')
-                for row in cands:
+    def mp11_try_process(self, ms, occ):
+        if occ['k'] == 'c':
+            occ['deleted'] = True
+            return self.mp11_completion(ms, occ['region'], occ['state'])
+        if occ['seq'] == ms.seq or self.mp11_is_deferred(ms, occ['ev']):
+            return None
+        occ['deleted'] = True
+        return self.mp11_process_event(ms, occ['ev'], 'pool')
+
+    def mp11_completion(self, ms, r_, sname):
+        if any(ms.m['states'][s]['kind'] in ('terminate', 'interrupt') for s in ms.active):
+            return {TAKEN}
+        ms.processing = True
+        result = set()
+        try:
+            try:
+                for row in self.candidates(ms, sname, 'none'):
                     if self.eval_guard(ms, row.get('guard'), 'none'):
-                        self.exec_row(ms, r_, row, 'none')
-                        progress = True
+                        result.add(self.exec_row(ms, r_, row, 'none'))
                         break
-            # back: re-tries after every handled event (a taken completion transition is one)
+                    else:
+                        result.add(REJECTED)
+            except ModelThrow:
+                self.tok('xc:%s/none' % ms.m['name'])
+                self.callback(ms)
+                result = set()
+        finally:
+            ms.processing = False
+        return result
 
     # ------------------------------------------------------------------ API
+    def api_process(self, ms, ev):
+        if self.dialect == 'back':
+            return self.back_process_event(ms, ev, {'D'})
+        return self.mp11_process_event(ms, ev, 'direct')
+
+    def api_enqueue(self, ms, ev):
+        if self.dialect == 'back':
+            ms.queue.append((ev, {'Q'}))
+        else:
+            ms.pool.append(dict(k='e', ev=ev, seq=(ms.seq - 1) & 0xFFFF, deleted=False))
+
     def begin_op(self, val, scripts):
         self.val = val
         self.ordinal = 0
@@ -407,28 +581,51 @@ class Model:
         self.begin_op(val, scripts)
         self.tok('[S')
         ms = self.root
-        ms.processing = True
-        ms.running = True
-        self.tok('en:%s/?' % ms.m['name'])
-        self.callback(ms)
-        ms.active = [reg[0] for reg in ms.m['regions']]
-        for r_ in range(len(ms.m['regions'])):
-            self.do_entry_state(ms, ms.active[r_], None)
-        self.completion(ms)
-        ms.processing = False
-        self.drain(ms)
+        try:
+            if self.dialect == 'mp11':
+                if not ms.running:
+                    self.enter_machine_root_mp11(ms)
+            else:
+                ms.active = [reg[0] for reg in ms.m['regions']]
+                ms.running = True
+                self.tok('en:%s/?' % ms.m['name'])
+                self.callback(ms)
+                for r_ in range(len(ms.m['regions'])):
+                    self.do_entry_state(ms, r_, ms.active[r_], None)
+                if ms.has_completion:
+                    self.back_process_event(ms, 'none', {'D'})
+        except ModelThrow:
+            self.tok('ESCAPED:scripted')
         self.tok(']')
         self.tok(self.ids())
+
+    def enter_machine_root_mp11(self, ms):
+        ms.running = True
+        ms.processing = True
+        self.tok('en:%s/?' % ms.m['name'])
+        self.callback(ms)
+        h = ms.m.get('history', 'none')
+        if h == 'always':
+            ms.active = list(ms.hist)
+        else:
+            ms.active = [reg[0] for reg in ms.m['regions']]
+            ms.pool = []
+        for r_ in range(len(ms.m['regions'])):
+            self.do_entry_state(ms, r_, ms.active[r_], None)
+        ms.processing = False
+        self.mp11_process_pool(ms)
 
     def op_stop(self, val=0, scripts=None):
         self.begin_op(val, scripts)
         self.tok('[T')
         ms = self.root
-        for r_ in range(len(ms.m['regions'])):
-            self.do_exit_state(ms, ms.active[r_], None)
-        self.tok('ex:%s/?' % ms.m['name'])
-        self.callback(ms)
-        ms.running = False
+        if self.dialect == 'back' or ms.running:
+            for r_ in range(len(ms.m['regions'])):
+                self.do_exit_state(ms, ms.active[r_], None)
+            self.tok('ex:%s/?' % ms.m['name'])
+            self.callback(ms)
+            ms.hist = list(ms.active)
+            ms.running = False
         self.tok(']')
         self.tok(self.ids())
 
@@ -436,10 +633,40 @@ class Model:
         self.begin_op(val, scripts)
         ev = (self.spec['events'][evi]['name'], payload)
         self.tok('[P%d#%d' % (evi, payload))
-        res = self.process_event(self.root, ev)
+        res = self.api_process(self.root, ev)
         cls = 'H' if TAKEN in res else ('Z' if not res else 'N')
         self.tok(']=' + cls)
         self.tok(self.ids())
+
+    def op_enqueue(self, evi, payload):
+        ev = (self.spec['events'][evi]['name'], payload)
+        self.tok('[Q%d#%d' % (evi, payload))
+        self.api_enqueue(self.root, ev)
+        self.tok(']')
+        self.tok(self.ids())
+
+    def op_exec(self, mode, val=0, scripts=None):
+        self.begin_op(val, scripts)
+        self.tok('[X' + mode)
+        ms = self.root
+        if self.dialect == 'back':
+            if mode == 'a':
+                self.back_message_queue(ms)
+            elif ms.queue:
+                ev, src = ms.queue.pop(0)
+                self.back_process_event(ms, ev, src)
+            else:
+                self.tok('skip')
+        else:
+            self.mp11_process_pool(ms, None if mode == 'a' else 1)
+        self.tok(']')
+        self.tok(self.ids())
+
+    def pending(self):
+        ms = self.root
+        if self.dialect == 'back':
+            return len(ms.queue) + len(ms.deferred)
+        return len(ms.pool)
 
     def probe_inside(self):
         return ''
